@@ -69,6 +69,8 @@ class Prop:
         nops = c.choice([3, 6, 10, 16, 24, 30])
         gc_mode = c.choice(["explicit", "explicit", "explicit", "storm"])
         k1_witness = False
+        er = stream(seed, "env")
+        nested_rate = c.choice([0.0, 0.0, 0.15, 0.4])
         ops = []
         for _ in range(nops + pre):
             x = r.random()
@@ -85,6 +87,12 @@ class Prop:
                                      {"k": "deliver", "n": r.choice([1, 2, 99]), "i": r.randrange(6)}]))
             else:
                 ops.append(G.gen_graph_op(r, npool))
+                if er.random() < nested_rate:
+                    # non-conflicting re-entrancy: from inside a handler, assign a leaf of a
+                    # node whose matched status the in-flight op does not change
+                    ops[-1]["env"] = [{"at": "h:any", "nth": er.choice([1, 1, 2]),
+                                       "do": "nested_probe", "o": er.randrange(npool + 2),
+                                       "name": er.choice(["value", "label"])}]
         return {"prop": ID, "seed": seed,
                 "config": {"npool": npool, "handlers": handlers, "pre": pre,
                            "allow_k1": k1_witness, "gc_mode": gc_mode},
@@ -115,6 +123,7 @@ class Prop:
         for h in handlers:
             h.fn = mk_handler(h.id, records, sched, env)
         registered = False
+        env.actions["nested_probe"] = lambda ev: None     # armed per op by arm_nested
         self.origin_ctr = 0
         pending_expect = {}     # (origin, hid) -> expectation awaiting a deferred delivery
         stats = {"expected_call": 0, "expected_silent": 0, "graph_changes": 0}
@@ -211,10 +220,13 @@ class Prop:
         origin = self.origin_ctr
         sched.now = origin
         rec0 = len(records)
+        if op.get("env") and handlers and not probe:
+            self.arm_nested(world, handlers, op, i, env, sched, records, pending_expect, stats)
         try:
             changes = world.apply(op, i)
         finally:
             sched.now = None
+            env.actions["nested_probe"] = lambda ev: None
         if pre is None:
             # Whether the changed observable itself is matched does not depend on
             # its own new value (absent level aliasing, which the guard excludes),
@@ -247,6 +259,61 @@ class Prop:
         if not probe:
             env.token(k, op.get("op", {}).get("k"), tuple(pattern))
             env.cover(k, op.get("op", {}).get("k"), bool(pattern and max(pattern)))
+
+    def arm_nested(self, world, handlers, op, i, env, sched, records, pending_expect, stats):
+        """Install the action for 'nested_probe' environment events of this op.
+        A nested leaf assignment is allowed only on a node whose matched status
+        is the same before and after the in-flight op for every handler (whether
+        its hooks are already/still in place mid-notification is then moot)."""
+        before = {h.id: G.match(h.expr, world.model(h.root_uid))[0] for h in handlers}
+        dry = world.dry_clone()
+        dry.apply(op, i)
+        after = {h.id: G.match(h.expr, dry.model(h.root_uid))[0] for h in handlers}
+        uid_of = {id(m): m.uid for m in [x[1] for x in world.by_uid.values()]}
+        uid_of_dry = {id(x[1]): x[1].uid for x in dry.by_uid.values()}
+
+        def status(matchsets, table, uid, name):
+            out = []
+            for h in handlers:
+                out.append(any(k[0] == "t" and table.get(k[1]) == uid and k[2] == name
+                               for k in matchsets[h.id]))
+            return out
+        depth = [0]
+
+        def act(ev):
+            if depth[0] or not world.mnodes:
+                return
+            j = world.idx(ev["o"])
+            m = world.mnodes[j]
+            name = ev["name"]
+            if name not in m.traits():
+                return
+            st0 = status(before, uid_of, m.uid, name)
+            st1 = status(after, uid_of_dry, m.uid, name)
+            if st0 != st1:
+                env.probe("nested-probe-unstable-skipped")
+                return
+            depth[0] += 1
+            outer = sched.now
+            self.origin_ctr += 1
+            norigin = self.origin_ctr
+            sched.now = norigin
+            try:
+                changes = world.apply({"k": "probe", "o": j, "name": name}, i)
+            finally:
+                sched.now = outer
+                depth[0] -= 1
+            env.probe("nested-probe-executed")
+            for ch in changes:
+                for h, want in zip(handlers, st0):
+                    exp = ("must", "trait") if want else None
+                    if want:
+                        stats["expected_call"] += 1
+                    else:
+                        stats["expected_silent"] += 1
+                    pending_expect[(norigin, h.id)] = (exp, ch, i, "nested " + describe(
+                        {"k": "probe", "o": j, "name": name}, world), True)
+        env.actions["nested_probe"] = act
 
     def settle(self, records, pending_expect, sched, step, final=False, upto_origin=None, rec0=0):
         """Compare recorded handler calls with expectations whose delivery is
@@ -333,8 +400,9 @@ class Prop:
 
 def mk_handler(hid, records, sched, env):
     def handler(event):
-        env.log("h:" + hid, type(event).__name__)
         records.append({"h": hid, "origin": sched.cur_origin(), "ev": event})
+        env.point("h:any", hid)
+        env.log("h:" + hid, type(event).__name__)
     return handler
 
 
